@@ -1,6 +1,7 @@
 import Lemmas.GoCloneBase
 import Generated.GoGErrorIs
 import Lemmas.GoGErrorIs
+import Generated.GerrorBase
 import Model.GErrorIs
 import Properties.C06
 /-!
@@ -254,6 +255,26 @@ theorem go_is_no_panic {cmds : List Cmd} (hd : inDomain 0 cmds = true) (hr : Rel
   rw [go_is_eq hr]
   intro hp
   exact gIs_ne_panic (good_run hd).wf fuel e err (ofRes_inj (b := .panic) hp)
+
+/-! ### the 17 derivation methods
+
+`Generated/GerrorBase.lean` (rewritten by harness/cmd/extract-gerror on every run) lists what each of the 19
+factory methods of `*GError` hands to `CloneBase`.  The C06 model only needs the `srcError` column and the
+leading `if gerr, ok := err.(Error); ok { return gerr }`: `Meth.srcArg` / `Meth.isConvert`. -/
+
+/-- the method of the C15 wiring table -/
+def _root_.GErrorIs.Meth.wiring : Meth → GErrClone.Method
+  | .Base => .base | .SourceOnly => .sourceOnly | .Stack => .stack | .Src => .src | .DTag => .dTag | .Msg => .msg
+  | .SrcDTagMsg => .srcDTagMsg | .SrcDTag => .srcDTag | .SrcMsg => .srcMsg | .DTagMsg => .dTagMsg | .SrcS => .srcS
+  | .DTagS => .dTagS | .MsgS => .msgS | .SrcDTagMsgS => .srcDTagMsgS | .SrcDTagS => .srcDTagS | .SrcMsgS => .srcMsgS
+  | .DTagMsgS => .dTagMsgS | .Convert => .convert | .ConvertS => .convertS
+
+/-- In the code as it is now: exactly Convert/ConvertS pass their argument on to `CloneBase` as `srcError` (and
+return a gerror argument unchanged); the 17 derivations pass `nil` - what `Meth.srcArg` and `callWith` assume. -/
+theorem method_srcArg_wiring : ∀ mth ∈ Meth.all,
+    (GErrClone.rowOf Generated.GerrorBase.rows mth.wiring).map (fun r => (r.err, r.shortCircuit)) =
+      some (if mth.isConvert then (GErrClone.ErrArg.param 0, true) else (GErrClone.ErrArg.nil, false)) := by
+  decide
 
 /-- non-vacuity: every heap is represented by a memory -/
 def memOf (h : Heap) : Go.Mem (GError Val Unit) :=
